@@ -96,4 +96,30 @@ theorem C10_counterexample_unfixed : ¬ Struct witness (convOld uname witness) :
 example : Struct witness (convS witness) :=
   C10_struct witness_wf (by intro a b hab; simp [LG.dirDG, witness] at hab)
 
+/-- non-vacuity of `mSeparated_of_isConv` / `sepPreserved_of_isConv` / `IsConv.conn_iff`: the relation
+    `IsConv` is inhabited by a graph with two bidirected edges whose labels collide with the names -/
+example : ∃ asg, IsConv exM (convMG exM) asg :=
+  ⟨_, isConv_convMG ⟨by decide, by decide, by decide⟩ (by decide) rfl⟩
+
+/-- non-vacuity of the generic `struct_conv` / `exact_conv` / `conv_spec` at `α = Nat`, `fresh = id` -/
+example : Struct (LG.ofMG exM) (conv id (LG.ofMG exM)) ∧ Exact (LG.ofMG exM) (conv id (LG.ofMG exM)) :=
+  ⟨struct_conv id (fun _ _ h => h) (ofMG_wf ⟨by decide, by decide, by decide⟩ (by decide))
+      (by
+        intro a b hab hba
+        have : (a, b) = (1, 0) := by simpa [LG.dirDG, LG.ofMG, exM] using hab
+        obtain ⟨rfl, rfl⟩ := Prod.mk.inj this
+        generalize hs : (0 : Nat) = s at hba
+        cases hba with
+        | refl => exact absurd hs (by decide)
+        | @step _ c _ e _ =>
+          have : (s, c) = (1, 0) := by simpa [LG.dirDG, LG.ofMG, exM] using e
+          exact absurd (hs.trans (Prod.mk.inj this).1) (by decide)),
+   exact_conv id (fun _ _ h => h) (ofMG_wf ⟨by decide, by decide, by decide⟩ (by decide))
+      (by unfold LG.BiDistinct; decide)⟩
+
+/-- non-vacuity of `C10_full_idx` -/
+example : Struct exG (convS exG) ∧
+    SepPreserved (exG.encode (idxEnc (convS exG))) ((convS exG).encode (idxEnc (convS exG))) :=
+  C10_full_idx exG_wf exG_acyclic exG_noSelfLoop
+
 end C10
